@@ -42,6 +42,7 @@ type Proc struct {
 	probes        []*Obligation
 	pureDepth     int
 	entryFacts    []*Term
+	lets          map[string]Val
 	havocEpoch    int
 }
 
@@ -51,7 +52,7 @@ func newProc(c *Ctx, fi *FuncInfo) *Proc {
 		boxed: map[*types.Var]bool{}, capturedByRef: map[*types.Var]bool{},
 		closureOf: map[types.Object]*ClosureVal{}, rangeIdx: map[int]*types.Var{},
 		visited: map[int]*types.Var{}, visitedSort: map[*types.Var]Sort{},
-		nameCount: map[string]int{}, cbParams: map[string]*types.Var{}}
+		nameCount: map[string]int{}, cbParams: map[string]*types.Var{}, lets: map[string]Val{}}
 }
 
 // ordinals: per root declaration, nodes numbered per syntactic category in source order.
@@ -498,6 +499,10 @@ func (p *Proc) evalSpecCall(ec *ectx, name string, call *ast.CallExpr) (Val, boo
 		mt := m.Typ.Underlying().(*types.Map)
 		_, _, card := p.mapHeaps(ec.st, mt)
 		return Val{T: Sel(card, m.T), Typ: types.Typ[types.Int]}, true
+	case "spawned":
+		return Val{T: p.heapGet(ec.st, "G:$spawned", SInt), Typ: types.Typ[types.Int]}, true
+	case "spawncount":
+		return Val{T: p.heapGet(ec.st, "G:$spawncount", SInt), Typ: types.Typ[types.Int]}, true
 	case "resolved":
 		id := call.Args[0].(*ast.Ident)
 		o := p.cbParams[id.Name]
